@@ -167,7 +167,7 @@ def rule_iso_claim(ctx):
         if g.is_alias or isinstance(g.node, ast.Lambda) or not g.module.name.startswith("quimb.tensor"):
             continue
         defs = _local_defs(g.node)
-        q = g.qualname
+        q = g.qualname if not ctx.is_control(g) else "QsaControl." + g.qualname
         for c in ast.walk(g.node):
             if not isinstance(c, ast.Call):
                 continue
@@ -332,3 +332,83 @@ REWRITE_PREFIXES = (
 
 def rewrite_family(f):
     return f.name.lstrip("_").startswith(REWRITE_PREFIXES)
+
+
+# ---------------------------------------------------------------- strip-member
+def rule_strip_member(ctx):
+    r = RuleResult(
+        "strip-member",
+        "N.strip_exponent(X) divides X and accrues log10 of the factor into N.exponent, so X must be a tensor "
+        "that N actually holds: a tid, a tensor read from N, or a fresh tensor that was added to N *virtually* "
+        "(N |= X / add_tensor(X, virtual=True)) earlier in the function — stripping a tensor that N only holds "
+        "a copy of changes N's value by the stripped factor",
+    )
+    n = 0
+    for g in ctx.prog.all_functions(nested=False):
+        if g.is_alias or isinstance(g.node, ast.Lambda) or not g.module.name.startswith("quimb.tensor"):
+            continue
+        calls = [c for c in ast.walk(g.node) if isinstance(c, ast.Call) and isinstance(c.func, ast.Attribute) and c.func.attr == "strip_exponent" and c.args]
+        if not calls:
+            continue
+        # bindings
+        binds = {}
+        for x in ast.walk(g.node):
+            if isinstance(x, ast.Assign):
+                for t in x.targets:
+                    for nm in ([t] if isinstance(t, ast.Name) else [e for e in ast.walk(t) if isinstance(e, ast.Name)] if isinstance(t, (ast.Tuple, ast.List)) else []):
+                        binds.setdefault(nm.id, []).append(x.value)
+            elif isinstance(x, (ast.For, ast.comprehension)):
+                for nm in [e for e in ast.walk(x.target) if isinstance(e, ast.Name)]:
+                    binds.setdefault(nm.id, []).append(x.iter)
+        for c in calls:
+            N = src_of(c.func.value)
+            X = c.args[0]
+            n += 1
+            where = f"{g.module.relpath}:{c.lineno}"
+            label = f"{g.qualname}:{N}.strip_exponent({src_of(X)[:20]})"
+            if not isinstance(X, ast.Name):
+                # N[...] / N.tensor_map[...]
+                if src_of(X).startswith(N + "[") or src_of(X).startswith(N + ".tensor_map["):
+                    r.ok(label, sample={"site": g.qualname, "tensor": src_of(X), "membership": "read from the network"})
+                else:
+                    r.skip(label, "argument shape not classified")
+                continue
+            name = X.id
+            srcs = binds.get(name, [])
+            if name.startswith("tid") or (name in g.params and not srcs):
+                r.ok(label, sample={"site": g.qualname, "tensor": name, "membership": "tid / parameter"}, nontrivial=False)
+                continue
+            from_net = any(N + "." in src_of(v) or src_of(v).startswith(N + "[") or src_of(v) == N or ("tensor_map" in src_of(v)) or "_tids_get" in src_of(v) or "_inds_get" in src_of(v) for v in srcs)
+            if from_net:
+                r.ok(label, sample={"site": g.qualname, "tensor": name, "membership": "read from the network"})
+                continue
+            # fresh local: look for how it was added to N before the call
+            virtual_add = False
+            copy_add = None
+            for x in ast.walk(g.node):
+                if getattr(x, "lineno", 10**9) >= c.lineno:
+                    continue
+                if isinstance(x, ast.AugAssign) and src_of(x.target) == N and name in {e.id for e in ast.walk(x.value) if isinstance(e, ast.Name)}:
+                    if isinstance(x.op, ast.BitOr):
+                        virtual_add = True
+                    elif isinstance(x.op, ast.BitAnd):
+                        copy_add = x
+                if isinstance(x, ast.Call) and isinstance(x.func, ast.Attribute) and src_of(x.func.value) == N and x.func.attr in ("add", "add_tensor", "add_tensor_network"):
+                    if name in {e.id for a in x.args for e in ast.walk(a) if isinstance(e, ast.Name)}:
+                        virt = any(k.arg == "virtual" and const_value(k.value, None) is True for k in x.keywords)
+                        if virt:
+                            virtual_add = True
+                        else:
+                            copy_add = x
+            if virtual_add:
+                r.ok(label, sample={"site": g.qualname, "tensor": name, "membership": "added virtually before"})
+            elif copy_add is not None:
+                r.bad(Finding(
+                    "strip-member", g.qualname,
+                    f"{N}.strip_exponent({name}) (line {c.lineno}) rescales `{name}`, but {N} only holds a *copy* of it "
+                    f"(added by `{src_of(copy_add)[:40]}` at line {copy_add.lineno}): the network keeps the unscaled copy while "
+                    f"its exponent absorbs the norm", where=where, operand=name))
+            else:
+                r.skip(label, f"origin of `{name}` not classified")
+    r.floor(n, 15, "strip_exponent call sites")
+    return r
